@@ -182,7 +182,9 @@ PLAN = {
 try:
     from theorems import THEOREMS, OPEN, ASSUME  # noqa: E402
     for _k, _v in THEOREMS.items():
-        PLAN[_k]["theorems"] = _v
+        # {module: [theorem names]}
+        PLAN[_k]["modules"] = _v
+        PLAN[_k]["theorems"] = [n for ns in _v.values() for n in ns]
     for _k, _v in OPEN.items():
         PLAN[_k]["open"] = _v
     for _k, _v in ASSUME.items():
